@@ -4,7 +4,9 @@
       unsubscribes (10 sees the meta event), 12 publishes (10 only), 10 is
       dropped, 12 publishes (nobody).  The hypotheses of the C01 history
       theorems hold; the monitors of (11, 1) and (10, 1) end with the flag
-      clear; the publication ids are 9, 9, 9, 10, 11, 15.
+      clear; the publication ids are 9, 9, 9, 10, 11, 17 (the
+      departure of 10 draws on_unsubscribe and on_delete ids for its two
+      subscriptions and one for on_leave).
     - [SwapEx]: an authorizer that turns UNSUBSCRIBE of subscription 1 into
       UNSUBSCRIBE of subscription 2: the client is told UNSUBSCRIBED and still
       gets the EVENT of subscription 1 — the statement without the gate
@@ -54,7 +56,7 @@ Module SubEx.
       (10, REvent 2 10 [("topic", vuri t_sub_on_unsubscribe)] [vid 11; vid 1] [])];
      [(10, REvent 1 11 [] [vnat 2] [])];
      [];
-     [(12, RPublished 7 15)]].
+     [(12, RPublished 7 17)]].
   Proof. vm_compute. reflexivity. Qed.
 
   (** an EVENT for subscription 1 sent to 11, as in the theorem's hypothesis *)
@@ -89,7 +91,7 @@ Module SubEx.
     split; vm_compute; reflexivity.
   Qed.
 
-  Lemma ids : pubids (tr_outs (trace cfg0 ops0)) = [9; 9; 9; 10; 11; 15].
+  Lemma ids : pubids (tr_outs (trace cfg0 ops0)) = [9; 9; 9; 10; 11; 17].
   Proof. vm_compute. reflexivity. Qed.
 End SubEx.
 
